@@ -290,6 +290,16 @@ impl Entry for WEntry {
     }
 }
 
+/// names that entries use repeatedly and deny-lists pick from (ASCII and multi-byte, short and long)
+const SHARED_NAMES: &[&str] = &["dup", "x", "Gr\u{f6}\u{df}e", "\u{6240}\u{8981}\u{6642}\u{9593}", "na\u{ef}ve-latency-\u{b5}s", "Lat\u{ea}ncia"];
+
+fn gen_deny(rng: &mut Rng) -> Vec<String> {
+    if rng.below(3) == 0 {
+        return vec![];
+    }
+    SHARED_NAMES.iter().filter(|_| rng.bool()).map(|s| s.to_string()).collect()
+}
+
 fn gen_program(rng: &mut Rng, emf_flags: bool) -> ProgramEntry {
     let mut ops = vec![];
     if rng.bool() {
@@ -300,7 +310,7 @@ fn gen_program(rng: &mut Rng, emf_flags: bool) -> ProgramEntry {
     }
     for i in 0..rng.below(6) {
         // names repeat on purpose: a wrapper must not de-duplicate or reorder
-        let name = if rng.below(4) == 0 { "dup".to_string() } else { format!("{}{}", gen_text(rng, true), i) };
+        let name = if rng.below(3) == 0 { rng.pick(SHARED_NAMES).to_string() } else { format!("{}{}", gen_text(rng, true), i) };
         ops.push(POp::Value(name, gen_pval(rng, emf_flags)));
     }
     if rng.below(4) == 0 {
@@ -331,7 +341,7 @@ fn composition_case(rng: &mut Rng, rep: &Report) -> bool {
             4 => Layer::EntryFirst(gen_program(rng, emf_flags)),
             5 => Layer::GlobalDims {
                 dims: (0..1 + rng.below(2)).map(|i| (format!("G{i}"), gen_text(rng, false))).collect(),
-                deny: if rng.bool() { vec!["dup".into()] } else { vec![] },
+                deny: gen_deny(rng),
             },
             6 => Layer::EntryDims { dims: vec![("E".into(), gen_text(rng, false))] },
             _ => Layer::Force(if emf_flags { *rng.pick(&[Flag::High, Flag::NoMetric]) } else { *rng.pick(&[Flag::T1, Flag::T2]) }),
@@ -448,7 +458,7 @@ fn stream_case(rng: &mut Rng, rep: &Report) -> bool {
     let e = gen_program(rng, emf_flags);
     let g = gen_program(rng, emf_flags);
     let dims: Vec<(String, String)> = (0..rng.below(3)).map(|i| (format!("SG{i}"), gen_text(rng, false))).collect();
-    let deny: Vec<String> = if rng.bool() { vec!["dup".into()] } else { vec![] };
+    let deny: Vec<String> = gen_deny(rng);
     let (plain, sg) = (record(&e), record_sample_group(&e));
     let sv: SmallVec<[(Cow<'static, str>, Cow<'static, str>); 2]> = cow_dims(&dims).into_iter().collect();
     let denyset: HashSet<Cow<'static, str>> = deny.iter().map(|d| Cow::Owned(d.clone())).collect();
